@@ -63,10 +63,10 @@ Print Assumptions C06_no_panic.
 (* the inductive invariant behind C06 (store, ownership of every slot, send buffer = pending bytes with
    the write slice last, chains in the headers, receive buffer with only the front slice possibly
    exhausted, leases): every operation preserves it and answers like the byte queue *)
-Theorem C06_step : forall s sp idss o, Inv s sp idss ->
+Theorem C06_step : forall ext Eg s sp idss o, Inv ext Eg s sp idss ->
   match spec_step sp o with
   | None => step s o = Blocked
-  | Some (x, sp') => exists y s' idss', step s o = Ok (y, s') /\ res_agree o x y /\ Inv s' sp' idss'
+  | Some (x, sp') => exists y s' idss', step s o = Ok (y, s') /\ res_agree o x y /\ Inv ext Eg s' sp' idss'
   end.
 Proof. exact step_inv. Qed.
 Print Assumptions C06_step.
